@@ -237,3 +237,14 @@ package readline
 //@   terminates
 //@   requires moveok(rl)
 //@   ensures [movement-never-edits] *rl.line == old(*rl.line)
+
+// ---------------------------------------------------------------------------------------
+// C11: the terminal mode is restored on every way out of Readline, the panic of a bound command included.
+// ensures_always is checked at every return and, for every call of the body that may panic, after the
+// deferred calls armed at that point have run on an arbitrary heap.
+
+//@ func (*Shell).Readline
+//@   props C11
+//@   assume_nopanic the preconditions of what the main loop calls are its composition (A-LOOP); only the exits matter here
+//@   noinline
+//@   ensures_always [termios-restored] tmode() == old(tmode())
